@@ -225,7 +225,7 @@ func (h H) consistencyCheck(rule string) {
 	for _, d := range h.P.DeferredClosures(fn) {
 		core.Instrs(fn, func(in ssa.Instruction) {
 			if df, ok := in.(*ssa.Defer); ok {
-				if mc, ok := df.Call.Value.(*ssa.MakeClosure); ok && mc.Fn == d {
+				if core.ClosureOf(df.Call.Value) == d {
 					h.gateFresh(rule+" gate", "(*Raft).onAppendEntriesRequest defer "+h.name(d), df, append([]core.Atom{match}, covered...)...)
 				}
 			}
@@ -425,11 +425,9 @@ func (h H) appendRefusalJustified(rule string) {
 		if !ok {
 			return
 		}
-		mc, ok := c.Common().Value.(*ssa.MakeClosure)
-		if !ok || len(c.Common().Args) != 2 {
+		if core.ClosureOf(c.Common().Value) == nil || len(c.Common().Args) != 2 {
 			return
 		}
-		_ = mc
 		res := fi.Sym(c.Common().Args[0]).String()
 		pass, known := want[res]
 		if !known {
